@@ -49,6 +49,8 @@ def run(ctx):
     r6 = ctx.rule("C12.R6", "TABLE: Workspace.build writes every user-configurable key that reduce_paramsets_requirements reads (inits, bounds, fixed, auxdata, sigmas, factors)", "TABLE", floor=3)
     r7 = ctx.rule("C12.R7", "OVERRIDE: interpreting reduce_paramsets_requirements on a two-component constrained set, a value given by the user for inits / bounds / fixed / auxdata / sigmas / factors is the merged value VERBATIM (also when it is falsy: fixed = False over a default that fixes a component) and every key the user does not give keeps the modifier's default", "OVERRIDE", floor=8)
     _overrides(ctx, r7, repo)
+    r8 = ctx.rule("C12.R8", "SUMMARY (interpreted): _ChannelSummaryMixin.__init__ on three channels listed out of order (3, 1 and 2 bins) with repeated sample and modifier names: channels, samples and (name, type) pairs come out sorted and unique; channel_nbins and channel_slices are keyed in sorted channel order and the slices tile [0, 6) in THAT order", "SUMMARY", floor=1)
+    _summary_interpreted(ctx, r8, repo)
 
     # ------------------------------------------------------------ R1
     sites = [(PDF, "_ModelConfig._create_and_register_paramsets"), (MIX, "_ChannelSummaryMixin.__init__"), (TC, "_tensorviewer_from_sizes")]
@@ -392,3 +394,50 @@ def _overrides(ctx, rid, repo):
                 ctx.violated(rid, red, f"merged settings [{lab}]", "a per-parameter setting given in the measurement is not the merged value verbatim (a falsy value such as fixed = False must win over the default too), or a key that was not overridden lost its default", expected=f"{k0} = {show(want.get(k0))}", found=f"{k0} = {show(got.get(k0))}")
         except (Undecided, KeyError, TypeError, ValueError, AttributeError) as e:
             ctx.unrecognised(rid, red, f"reduce_paramsets_requirements [{lab}]", f"not interpretable: {type(e).__name__}: {e}")
+
+
+def _summary_interpreted(ctx, rid, repo):
+    from ..objmodel import Instance, World
+    mc = repo.cls(MIX, "_ChannelSummaryMixin")
+    at = Poly.atom
+
+    def smp(name, n, mods):
+        return {"name": name, "data": [at(f"{name}{j}") for j in range(n)], "modifiers": [{"name": a_, "type": t_, "data": None} for a_, t_ in mods]}
+
+    channels = [
+        {"name": "SR", "samples": [smp("sig", 3, [("mu", "normfactor"), ("sys", "normsys")]), smp("bkg", 3, [("sys", "normsys"), ("sys", "histosys")])]},
+        {"name": "CR", "samples": [smp("bkg", 1, [("sys", "normsys"), ("lumi", "lumi")])]},
+        {"name": "VR", "samples": [smp("bkg", 2, [("alt", "shapefactor")]), smp("aux", 2, [])]},
+    ]
+    try:
+        w = World({"__strict__": True}, module_env={"log": Obj("log")})
+        w.add_class(mc)
+        inst = Instance(mc)
+        w.call_method(inst, "__init__", [], {"channels": channels})
+        a = inst.attrs
+        sl = a.get("_channel_slices") or {}
+
+        def bounds(v):
+            if isinstance(v, slice):
+                return (v.start, v.stop)
+            if isinstance(v, Obj):
+                return (v.attrs.get("start"), v.attrs.get("stop"))
+            return (None, None)
+
+        got = {
+            "channels": list(a.get("_channels") or []), "samples": list(a.get("_samples") or []), "modifiers": [tuple(x) for x in (a.get("_modifiers") or [])],
+            "channel_nbins": [(k, int(to_poly(v).const_value())) for k, v in (a.get("_channel_nbins") or {}).items()],
+            "channel_slices": [(k, tuple(int(to_poly(x).const_value()) for x in bounds(v))) for k, v in sl.items()],
+        }
+        want = {
+            "channels": ["CR", "SR", "VR"], "samples": ["aux", "bkg", "sig"],
+            "modifiers": [("alt", "shapefactor"), ("lumi", "lumi"), ("mu", "normfactor"), ("sys", "histosys"), ("sys", "normsys")],
+            "channel_nbins": [("CR", 1), ("SR", 3), ("VR", 2)], "channel_slices": [("CR", (0, 1)), ("SR", (1, 4)), ("VR", (4, 6))],
+        }
+        bad = [k for k in want if got[k] != want[k]]
+        if bad:
+            ctx.violated(rid, mc.methods["__init__"], f"channel summary: {bad[0]}", f"the `{bad[0]}` the configuration reports are not sorted / unique / tiling the main data in the reported channel order (the data vector is laid out in sorted channel order whatever the listing order)", expected=str(want[bad[0]]), found=str(got[bad[0]]))
+        else:
+            ctx.holds(rid, f"{MIX}::_ChannelSummaryMixin.__init__ [interpreted]", str(want["channel_slices"]))
+    except (Undecided, KeyError, TypeError, ValueError, IndexError, AttributeError) as e:
+        ctx.unrecognised(rid, mc, "_ChannelSummaryMixin.__init__", f"not interpretable: {type(e).__name__}: {e}")
